@@ -164,16 +164,6 @@ def stepOutStr : StepOut → String
 def parseStrList (s : String) : Option (List (List Byte)) :=
   if s = "-" then some [] else (s.splitOn ",").mapM parseHexBytes?
 
-def registerSyscall (st : DState) (n : Nat) : DState :=
-  if st.m.sys.registered.contains n then st else
-  let hooks := match n with
-    | 60 => st.hooks.addBefore "Syscall" hookExit
-    | 12 => st.hooks.addBefore "Syscall" hookBrk
-    | 158 => st.hooks.addBefore "Syscall" hookArchPrctl
-    | 22 => ((st.hooks.addBefore "Syscall" (fun s => hookPipe (0, 0) s)).addBefore "Syscall" hookPipeRead).addBefore "Syscall" hookPipeWrite
-    | _ => st.hooks
-  { st with hooks := hooks, builtin := true, m := { st.m with sys := { st.m.sys with registered := st.m.sys.registered ++ [n] } } }
-
 /-- the pipe hook needs the descriptor numbers of this very call: rebuild the table entry with them -/
 def withFds (hooks : HookTable) (registered : List Nat) (fds : Nat × Nat) : HookTable :=
   if !registered.contains 22 then hooks else
@@ -229,7 +219,7 @@ def handleMachine (st : DState) (ws : List String) : Option (DState × String) :
       | .ok false => "ok" | .ok true => "fuel" | .err => "err" | .panic => "panic")
   | ["maxinstr", n] => do
     let n ← parseHex? n
-    pure ({ st with m := { st.m with maxInstr := some n } }, "-")
+    pure ({ st with m := setMaxInstr st.m n }, "-")
   | ["setflags", v] => do
     let v ← parseHex? v
     pure ({ st with m := { st.m with rflags := BitVec.ofNat 64 v }, flagsUnknown := false }, "-")
@@ -268,21 +258,22 @@ def handleMachine (st : DState) (ws : List String) : Option (DState × String) :
     some (st, " ".intercalate ((table.filter fun (_, h) => match h with | .unimplemented => false | _ => true).map (·.1)))
   | ["log"] => if st.poisoned then some (st, "unspecified") else some (st, if st.m.log.isEmpty then "none" else " ".intercalate st.m.log)
   | ["hook", phase, mn, id, outcome, edit] =>
-    if st.m.hooksRunning then some (st, "err") else
     let e : Option (Fin 16 × BitVec 64) := match edit.splitOn "=" with
       | [r, v] => match findIdx? gprNames64 r 16, parseHex? v with
         | some i, some v => some (i, BitVec.ofNat 64 v)
         | _, _ => none
       | _ => none
     let f := scriptedHook id phase outcome e
-    match phase with
-    | "before" => some ({ st with hooks := st.hooks.addBefore mn f }, "ok")
-    | "after" => some ({ st with hooks := st.hooks.addAfter mn f }, "ok")
-    | _ => none
+    if phase != "before" && phase != "after" then none else
+    match registerHook st.m.hooksRunning st.hooks (phase == "before") mn f with
+    | some hooks => some ({ st with hooks := hooks }, "ok")
+    | none => some (st, "err")
   | ["syscalls", l] => do
     let ns ← (l.splitOn ",").mapM String.toNat?
-    if st.m.hooksRunning then pure (st, "err") else
-    pure (ns.foldl registerSyscall st, "ok")
+    match handleSyscalls st.m.hooksRunning st.hooks st.m.sys.registered ns with
+    | none => pure (st, "err")
+    | some (hooks, reg) =>
+      pure ({ st with hooks := hooks, builtin := !reg.isEmpty, m := { st.m with sys := { st.m.sys with registered := reg } } }, "ok")
   | ["stack", n] => do
     let n ← parseHex? n
     match initStack st.m n with
